@@ -479,6 +479,18 @@ def g8_derived_state(ctx: Ctx, classes, rule="G8"):
                        + ("recomputes the same term" if ok else
                           (f"recomputes {nf.show(got)[:120]}" if got is not None else f"never re-assigns self.{a}, so it keeps the value for the old {p}")),
                        setter.where, st)
+                if ok and stores:
+                    # the recomputation must read the *new* value of p: it has to follow the statement that updates p
+                    from .cfg import CFG
+                    g = CFG(setter.node)
+                    upd = g.stmt_nodes_calling(lambda c_: isinstance(c_.func, ast.Attribute) and c_.func.attr == "fset")
+                    gf = getter_field(c.find_prop(p, "get")) if c.find_prop(p, "get") else None
+                    upd += [n_ for n_ in g.nodes if n_.kind == "stmt" and isinstance(n_.ast, ast.Assign) and gf and is_self_attr(n_.ast.targets[0], gf)]
+                    rec = [n_ for n_ in g.nodes if n_.kind == "stmt" and n_.ast in stores]
+                    ordered = bool(upd) and g.always_before(upd, rec)
+                    ctx.ob(rule, f"{c.name}.{a}: recomputed after {p} is updated", ordered,
+                           "" if ordered else f"self.{a} is recomputed before the new {p} is stored: it is derived from the old value and stays stale",
+                           setter.where, st)
                 ctx.touch(init, setter)
     return n
 
